@@ -910,6 +910,7 @@ func runC09(a args, o *out) {
 			rounds = 100
 		}
 		c09RaceOpen(o, rounds)
+		c09Vanished(o)
 	}
 
 	nworkers := 4
